@@ -2,6 +2,7 @@ import StepupModel.Lemmas.KGlobal
 import StepupModel.Lemmas.StableInst
 import StepupModel.Lemmas.Acyclic
 import StepupModel.Lemmas.Reach
+import StepupModel.Lemmas.EverOutput
 /-!
 # C09  The stored workflow satisfies its invariants after every transaction
 
@@ -234,6 +235,14 @@ leaves the database unchanged. -/
 theorem detach_root_is_a_noop (s : KState) (cfg : KConfig) (hr : RootAttached s) :
     s.step cfg (.detach rootKey) = s :=
   detach_root_request_noop s cfg hr
+
+/-- "A file without any declaration is detached", after every history: an UNDECLARED file row (the
+placeholder for an input nobody has declared yet) is detached and has no creator. -/
+theorem undeclared_file_is_detached_after_every_history (h : List (KConfig × Req)) :
+    ∀ n ∈ (KState.init.run h).nodes, n.key.kind = .file → n.fstate = .undeclared →
+      n.detached = true ∧ n.creator = none :=
+  fun n hn hk hu => ⟨StepupModel.K.Ever.undeclared_is_detached h n hn hk hu,
+    StepupModel.K.Ever.undeclared_has_no_creator h n hn hk hu⟩
 
 /-- "Dependencies are acyclic" after every history: no chain of dependency edges leads from a
 node back to itself.  The insertion sites (`_supply_files`, `add_source`) check the recursive
